@@ -74,7 +74,7 @@ class ChannelEngine(Engine):
                        'loss_natoms', 'loss_bounds', 'loss_atoms_section', 'loss_atoms_section_velocities_kept', 'stream_source', 'short_read_source', 'path_source',
                        'imageflags_written', 'tilted_cell', 'nonperiodic_dims', 'gapped_types', 'random_epoch',
                        'compared_cells_above_resolution', 'chained_transfer', 'poscar_cartesian', 'poscar_box_scale',
-                       'dump_scaled_columns', 'writer_prop_info_used', 'dest_path', 'dest_stream', 'table_with_id']
+                       'dump_scaled_columns', 'writer_prop_info_used', 'dest_path', 'dest_stream', 'table_with_id', 'io_error_load_raised']
     rule = ('Each run draws a working-unit epoch (atomman default or seeded random, so that unit-column mix-ups cannot hide behind '
             'factors of one) and performs up to 8 transfers. A transfer builds a system (or reuses the system loaded by the previous '
             'transfer): LAMMPS-compatible cell, orthogonal or tilted, any origin, 1-40 atoms inside / outside / on faces, 1-4 types '
@@ -205,6 +205,9 @@ class ChannelEngine(Engine):
               'bufsize': r.choice([1, 16, 512, 8192]), 'chain': r.random() < 0.6}
         if cfg['fault_free'] and op['src'] in ('chunked', 'buffered'):
             op['src'] = 'bytesio'
+        if op['src'] in ('chunked', 'buffered') and r.random() < 0.2:
+            # a bad byte under the reader: delivering it raises EIO (always, or only the first time)
+            op['ioerr'] = {'u': r.random(), 'once': r.random() < 0.3}
         if style == 'atom_data':
             units = r.choice(UNIT_STYLES)
             astyle = r.choice(sorted(STYLE_PROPS))
@@ -338,7 +341,15 @@ class ChannelEngine(Engine):
 
     def _source(self, ctx, st, text, op):
         st['nfile'] += 1
-        obj, closer, raw = streams.make_source(op['src'], text, st['scratch'], 'r%d.txt' % st['nfile'], op['chunks'], op['bufsize'])
+        fail_at = None
+        io = op.get('ioerr')
+        if io and op['src'] in ('chunked', 'buffered') and not (op.get('plan') or {}).get('loss'):
+            nb = len(text.encode('utf-8'))
+            if nb:
+                fail_at = min(nb - 1, int(io['u'] * nb))
+        obj, closer, raw = streams.make_source(op['src'], text, st['scratch'], 'r%d.txt' % st['nfile'], op['chunks'], op['bufsize'],
+                                               fail_at=fail_at, fail_once=bool(io and io.get('once')))
+        st['last_raw'] = raw
         if op['src'] == 'path':
             ctx.probe('path_source')
         if op['src'] in ('bytesio', 'chunked', 'buffered'):
@@ -348,6 +359,16 @@ class ChannelEngine(Engine):
             ctx.probe('short_read_source')
             ctx.fault('short_read_source')
         return obj, closer
+
+    def _io_failed(self, ctx, st, ok):
+        """True when the reader's stream raised EIO during this load and the load failed: a load may fail on a disk
+        error, it may never return a wrong system (a load that returns is compared as usual)."""
+        raw = st.get('last_raw')
+        fired = raw is not None and getattr(raw, 'io_errors', 0) > 0
+        if fired:
+            ctx.fault('io_error_under_reader')
+            ctx.probe('io_error_load_' + ('raised' if not ok else 'completed'))
+        return fired and not ok
 
     def _fired(self, ctx, fired):
         for f in fired:
@@ -509,6 +530,8 @@ class ChannelEngine(Engine):
                                            'lost': loss, 'exception': type(got).__name__, 'message': str(got)[:200]},
                                 site=sut_site(got), klass='loss-wrong-exception/%s/%s' % (loss, type(got).__name__))
             return None
+        if self._io_failed(ctx, st, ok):
+            return None
         if not ok:
             raise Violation('C08.L0', {'what': 'loading what was dumped raised', 'exception': type(got).__name__, 'message': str(got)[:300],
                                        'fired': list(fired), 'src': op['src'], 'atom_style': astyle, 'units': units},
@@ -610,6 +633,8 @@ class ChannelEngine(Engine):
                 tuple(names))
         if fired or op['src'] != 'text':
             ctx.changes += 2
+        if self._io_failed(ctx, st, ok):
+            return None
         if not ok:
             raise Violation('C08.L0', {'what': 'loading what was dumped raised', 'exception': type(got).__name__, 'message': str(got)[:300],
                                        'src': op['src'], 'posvar': posvar, 'use_prop_info': use_pi},
@@ -690,6 +715,8 @@ class ChannelEngine(Engine):
         ctx.sig('table', tuple(str(u) for u in unit), fired, op['src'], op['dest'], bool(op['header']), bool(op['with_id']), fmt[-1])
         if fired or op['src'] != 'text':
             ctx.changes += 2
+        if self._io_failed(ctx, st, ok):
+            return None
         if not ok:
             raise Violation('C08.L0', {'what': 'loading what was dumped raised', 'exception': type(got).__name__, 'message': str(got)[:300],
                                        'src': op['src']}, site=sut_site(got), klass='raise/%s/%s' % (klass, type(got).__name__))
@@ -763,6 +790,8 @@ class ChannelEngine(Engine):
                 len(set(cur['atype'].tolist())) < nt)
         if fired or op['src'] != 'text':
             ctx.changes += 2
+        if self._io_failed(ctx, st, ok):
+            return None
         if not ok:
             raise Violation('C08.L0', {'what': 'loading what was dumped raised', 'exception': type(got).__name__, 'message': str(got)[:300],
                                        'src': op['src']}, site=sut_site(got), klass='raise/%s/%s' % (klass, type(got).__name__))
